@@ -238,7 +238,7 @@ class ScenarioGen:
                     kw[name] = self.angle()
                 else:
                     base = 10.0 * (fi + 1) + t / 8.0
-                    if uncertain and self.r.random() < 0.25:
+                    if uncertain and self.r.random() < 0.25 and cls != "PMState":  # PM heading needs exact vx, vy
                         from commonroad.common.util import Interval
                         kw[name] = Interval(base, base + round(self.r.uniform(0, 2), 6))
                     else:
@@ -327,7 +327,11 @@ class ScenarioGen:
                 if m in used:
                     continue
                 used.add(m)
-                els.append(TrafficSignElement(m, r.choice([[], ["50"], ["30", "abc"], ["13.5"], ["7 t"]])))
+                from commonroad.scenario.traffic_sign import TRAFFIC_SIGN_WITH_ADDITIONAL_VALUE
+                if m.name in TRAFFIC_SIGN_WITH_ADDITIONAL_VALUE:  # such signs are only meaningful with a numeric value
+                    els.append(TrafficSignElement(m, r.choice([["50"], ["30"], ["13.5"], ["120"]])))
+                else:
+                    els.append(TrafficSignElement(m, r.choice([[], [], ["50"], ["30", "abc"], ["7 t"]])))
             refs = set(r.sample(lids, r.randint(1, min(2, len(lids)))))
             virtual = self.cyc([True, False])
             self.feat("sign.virtual.%s" % virtual)
